@@ -16,7 +16,7 @@ From RV Require Import Base.
 From RV.Model Require Import Utf8 Indexer CodePointSet Insn IR Optimizer Unfold Emit Pike BT Exec Fold.
 From RV.Spec Require Import IRSem.
 From RV.Spec Require Import IRShape.
-From RV.Proofs Require Import PikeDen PikeCorrect PikeTop BTDen BTCorrect BTTop.
+From RV.Proofs Require Import PikeDen PikeCorrect PikeTop BTDen BTCorrect BTTop IndexerFacts Utf8Facts Utf8Valid.
 From RV.Gen Require Import FoldTables.
 
 (* a derivation of the relational PikeVM semantics bounds the executable run: exact tick count, any larger fuel/budget *)
@@ -52,6 +52,23 @@ Theorem c05_backtracker_search_terminates : forall ix h utf16 unicode ml n body 
   exists f0 k st', forall pfuel n budget, (f0 <= pfuel)%nat -> n + k <= budget ->
     bt_search ix prog h budget pfuel (fun _ => true) tries (bt_init prog) p n = (bt_result_of ix h r st', n + k).
 Proof. exact bt_emit_correct. Qed.
+
+(* the UTF-8 indexer on well-formed UTF-8 text, from a start at a character boundary: both hypotheses on the text are
+   theorems (every element read is a scalar value; the positions a search visits stay inside the text) *)
+Theorem c05_backtracker_search_terminates_valid_utf8 : forall fold h cs utf16 unicode ml n body prog names fuel tries p r,
+  utf8_chars (length h) h = Some cs -> Utf8Valid.bnd cs p ->
+  top_shape n body ->
+  emit utf16 unicode ml n = Ok (prog, names) ->
+  bt_wf (p_groups prog) (NCat body) = true ->
+  ir_search (utf8_indexer fold) unicode utf16 h fuel (NCat body) (p_groups prog) tries p = Some r ->
+  exists f0 k st', forall pfuel n budget, (f0 <= pfuel)%nat -> n + k <= budget ->
+    bt_search (utf8_indexer fold) prog h budget pfuel (fun _ => true) tries (bt_init prog) p n =
+    (bt_result_of (utf8_indexer fold) h r st', n + k).
+Proof.
+  intros fold h cs utf16 unicode ml n body prog names fuel tries p r Hch Hp.
+  destruct (utf8_chars_ok _ _ _ Hch) as [Hw Hcat]. subst h.
+  apply bt_emit_correct; [intros fwd q c q'; apply utf8_elem|apply walk_ok_utf8; assumption].
+Qed.
 
 (* Non-vacuity: a star of a star of 'a', then 'b' — a nested loop whose body can match the empty string — on "aab" and on "aac":
    the hypotheses hold (emit succeeds, the IR is well-formed, the IR semantics is defined). *)
